@@ -989,14 +989,23 @@ func (in *interp) isPure(f *types.Func) bool {
 						return true
 					}
 				}
+				if _, isLit := ast.Unparen(x.Fun).(*ast.FuncLit); isLit {
+					return true // a literal called on the spot (the deferred recover): its body is judged by the descent
+				}
 				ok = false
 				return false
 			}
 			if c.Pkg() == in.pkg.Types && !in.isPure(c) {
 				ok = false
 			}
-		case *ast.GoStmt, *ast.DeferStmt:
+		case *ast.GoStmt:
 			ok = false
+		case *ast.DeferStmt:
+			// a deferred function literal is judged like the rest of the body (the recover idiom stores into the named
+			// result of the function, a local): anything else deferred is not followed
+			if _, isLit := x.Call.Fun.(*ast.FuncLit); !isLit {
+				ok = false
+			}
 		}
 		return ok
 	})
